@@ -3,6 +3,10 @@ package c09
 
 import (
 	"fmt"
+	"github.com/avfs/avfs/idm/memidm"
+	"github.com/avfs/avfs/vfs/memfs"
+	"github.com/avfs/avfs/vfs/orefafs"
+	"io/fs"
 	"math"
 	"os"
 	"strings"
@@ -51,22 +55,53 @@ type inst struct {
 	before  fsx.Snap
 	cmpOpen map[int]bool
 	shared  bool // ro and cmp share the working directory (no Sub view in between)
+	win     bool // the base emulates Windows
 }
 
+// winView lets the snapshot walk a Windows-typed base with /-paths.
+type winView struct{ avfs.VFS }
+
+func wconv(p string) string { return fsx.Retarget(fsx.Op{P: p}, true).P }
+
+func (v winView) Lstat(p string) (fs.FileInfo, error)     { return v.VFS.Lstat(wconv(p)) }
+func (v winView) Stat(p string) (fs.FileInfo, error)      { return v.VFS.Stat(wconv(p)) }
+func (v winView) ReadDir(p string) ([]fs.DirEntry, error) { return v.VFS.ReadDir(wconv(p)) }
+func (v winView) ReadFile(p string) ([]byte, error)       { return v.VFS.ReadFile(wconv(p)) }
+func (v winView) Readlink(p string) (string, error)       { return v.VFS.Readlink(wconv(p)) }
+
 func newInst(kind, view string, prefix []fsx.Op) (*inst, error) {
-	x, _ := world.NewVFS(kind)
+	win := strings.HasSuffix(kind, "-win")
+	var x avfs.VFS
+	if win {
+		// a base that emulates Windows (volume C:, backslashes, Windows error values): the ops
+		// keep their /-paths and are rewritten on the way in
+		if strings.HasPrefix(kind, "OrefaFS") {
+			x = orefafs.NewWithOptions(&orefafs.Options{OSType: avfs.OsWindows})
+		} else {
+			x = memfs.NewWithOptions(&memfs.Options{OSType: avfs.OsWindows, Idm: memidm.NewWithOptions(&memidm.Options{OSType: avfs.OsWindows})})
+		}
+	} else {
+		x, _ = world.NewVFS(kind)
+	}
+	root := "/"
+	if win {
+		root = `C:\`
+	}
 	_ = x.SetUMask(0o022)
-	_ = x.Mkdir("/w", 0o755)
-	_ = x.Chdir("/")
+	_ = x.Mkdir(fsx.Retarget(fsx.Op{P: "/w"}, win).P, 0o755)
+	_ = x.Chdir(root)
 	r := fsx.NewRunner(x)
 	for _, o := range prefix {
-		_ = r.Do(o)
+		_ = r.Do(fsx.Retarget(o, win))
 	}
 	r.CloseAll()
-	_ = x.Chdir("/")
-	in := &inst{kind: kind, x: x, roots: []string{"/"}, cmpOpen: map[int]bool{}, shared: view == ""}
-	if kind == "OrefaFS" {
+	_ = x.Chdir(root)
+	in := &inst{kind: kind, x: x, roots: []string{"/"}, cmpOpen: map[int]bool{}, shared: view == "", win: win}
+	if strings.HasPrefix(kind, "OrefaFS") {
 		in.roots = []string{"/a", "/b", "/c", "/home", "/root", "/tmp", "/w"}
+	}
+	if win {
+		view = fsx.Retarget(fsx.Op{P: view}, view != "").P
 	}
 	ro := rofs.New(x)
 	in.ro, in.cmp = ro, x
@@ -82,17 +117,22 @@ func newInst(kind, view string, prefix []fsx.Op) (*inst, error) {
 		in.ro, in.cmp = sub, xs
 	}
 	in.rro, in.rcmp = fsx.NewRunner(in.ro), fsx.NewRunner(in.cmp)
-	in.rro.NoOwner, in.rcmp.NoOwner = kind == "OrefaFS", kind == "OrefaFS"
+	in.rro.NoOwner, in.rcmp.NoOwner = strings.HasPrefix(kind, "OrefaFS"), strings.HasPrefix(kind, "OrefaFS")
 	in.before = in.snap()
 	return in, nil
 }
 
 func (in *inst) snap() fsx.Snap {
-	return fsx.Snapshot(in.x, fsx.SnapOpts{Roots: in.roots, Full: true, NoOwner: in.kind == "OrefaFS"})
+	var v fsx.FS = in.x
+	if in.win {
+		v = winView{in.x}
+	}
+	return fsx.Snapshot(v, fsx.SnapOpts{Roots: in.roots, Full: true, NoOwner: strings.HasPrefix(in.kind, "OrefaFS")})
 }
 
 func (in *inst) step(c *vt.Ctx, o fsx.Op) *vt.Deviation {
 	c.Eval(1)
+	o = fsx.Retarget(o, in.win)
 	out := in.rro.Do(o)
 	mk := func(clause, detail string) *vt.Deviation {
 		d := vt.Dev("prop", "C09", "fs", in.kind, "op", o.K, "clause", clause)
@@ -122,7 +162,9 @@ func (in *inst) step(c *vt.Ctx, o fsx.Op) *vt.Deviation {
 		// the handle came from a refused call: there is no handle to mirror
 	case isMutating(o):
 		// a nil handle (failed open) answers ErrInvalid like os: also a refusal
-		if out.Err != "EACCES" && out.Err != "EPERM" && out.Err != "invalid" && out.Err != "closed" {
+		if out.Err != "EACCES" && out.Err != "EPERM" && out.Err != "invalid" && out.Err != "closed" &&
+			!(in.win && (out.Err == "win:5" || out.Err == "win:1314" || out.Err == "win:536871042")) {
+			// ERROR_ACCESS_DENIED, ERROR_PRIVILEGE_NOT_HELD, and avfs's Windows value for "operation not permitted"
 			return mk("not-refused", "a mutating call must fail with a permission-class error")
 		}
 	default:
@@ -202,10 +244,11 @@ func TestCheck(t *testing.T) {
 	if c.Replay != "" {
 		return
 	}
-	for _, kind := range []string{"MemFS", "OrefaFS"} {
+	for _, kind := range []string{"MemFS", "OrefaFS", "MemFS-win", "OrefaFS-win"} {
 		kind := kind
-		mem := kind == "MemFS"
-		cfg := gen.Config{Symlinks: mem, Root: mem, Base: "/w", NoChown: false}
+		mem := strings.HasPrefix(kind, "MemFS")
+		win := strings.HasSuffix(kind, "-win")
+		cfg := gen.Config{Symlinks: mem, Root: mem, Base: "/w", NoChown: false, NoTmp: win}
 		trees := cfg.StartTrees()
 		var tn []string
 		for n := range trees {
@@ -218,6 +261,9 @@ func TestCheck(t *testing.T) {
 			views = append(views, "/w")
 		}
 		for _, n := range tn {
+			if win && !c.Thorough() {
+				break // quick tier: the Windows-typed bases get random histories only
+			}
 			for _, view := range views {
 				vcfg := cfg
 				if view != "" {
@@ -238,7 +284,11 @@ func TestCheck(t *testing.T) {
 				}
 			}
 		}
-		c.Rapid("hist-"+kind, c.Pick(6000, 80000), func(t *rapid.T) *vt.Failure {
+		ncases := c.Pick(6000, 80000)
+		if win {
+			ncases = c.Pick(2500, 30000)
+		}
+		c.Rapid("hist-"+kind, ncases, func(t *rapid.T) *vt.Failure {
 			name := rapid.SampledFrom(tn).Draw(t, "tree")
 			view := rapid.SampledFrom(views).Draw(t, "view")
 			vcfg := cfg
